@@ -274,6 +274,65 @@ pub fn datagrams(tier: Tier, seed: u64) -> Vec<(&'static str, Vec<u8>)> {
         // classic request with count word 0 (empty message) and trailing bytes
         out.push(("field-mutant", vec![0u8; 1024]));
     }
+    // tag order: every permutation of the tag sequence of requests carrying one or both padding
+    // tags (and a duplicate tag); only the ascending order is well-formed
+    {
+        use rtref::codec::Msg;
+        fn perms(n: usize) -> Vec<Vec<usize>> {
+            if n == 1 {
+                return vec![vec![0]];
+            }
+            let mut out = vec![];
+            for p in perms(n - 1) {
+                for i in 0..n {
+                    let mut q = p.clone();
+                    q.insert(i, n - 1);
+                    out.push(q);
+                }
+            }
+            out
+        }
+        let sets: Vec<(bool, Vec<(&str, usize)>)> = vec![
+            (false, vec![("NONC", 64), ("PAD", 0)]),
+            (false, vec![("NONC", 64), ("ZZZZ", 0)]),
+            (false, vec![("NONC", 64), ("ZZZZ", 400), ("PAD", 0)]),
+            (false, vec![("SIG", 64), ("NONC", 64), ("PAD", 0)]),
+            (false, vec![("NONC", 64), ("NONC", 64), ("PAD", 0)]),
+            (true, vec![("VER", 4), ("NONC", 32), ("ZZZZ", 0)]),
+            (true, vec![("VER", 4), ("NONC", 32), ("PAD", 0)]),
+            (true, vec![("VER", 4), ("NONC", 32), ("ZZZZ", 400), ("PAD", 0)]),
+            (true, vec![("VER", 4), ("SRV", 32), ("NONC", 32), ("ZZZZ", 0)]),
+            (true, vec![("VER", 4), ("SRV", 32), ("NONC", 32), ("ZZZZ", 400), ("PAD", 0)]),
+            (true, vec![("VER", 4), ("VER", 4), ("NONC", 32), ("ZZZZ", 0)]),
+        ];
+        let lt_pk = crypto::public_key(&SrvCfg::default().seed);
+        let srv = crypto::srv_value(&lt_pk);
+        for (framed, set) in sets {
+            let total = if framed { 1012 } else { 1024 };
+            let fixed: usize = set.iter().map(|(_, l)| *l).sum();
+            let fill = total - codec::header_len(set.len()) - fixed;
+            for p in perms(set.len()) {
+                let mut m = Msg::new();
+                for &i in &p {
+                    let (t, l) = set[i];
+                    let v = match t {
+                        "VER" => VER_IETF13.to_vec(),
+                        "SRV" => srv.to_vec(),
+                        "NONC" => nonce(0x7a6 + out.len() as u64, l),
+                        _ if l == 0 => vec![0u8; fill],
+                        _ => vec![0u8; l],
+                    };
+                    m.fields.push((codec::tag(t), v));
+                }
+                let b = m.encode();
+                out.push(("tag-order", if framed { codec::frame(&b) } else { b }));
+            }
+        }
+    }
+    // every header word of a valid request of each shape swept over its range (shared with C08)
+    for (_, d) in super::c08::header_sweeps() {
+        out.push(("header-sweep", d));
+    }
     // framed requests naming every VER list of length <= 3 over {draft-13, classic 0, an unknown number}
     {
         let vs: [[u8; 4]; 3] = [VER_IETF13, [0, 0, 0, 0], [1, 0, 0, 0x80]];
